@@ -23,6 +23,8 @@ type bindCase struct {
 	decls   string // type declarations and action methods
 	accept  bool
 	diag    string // for rejected packages: text the diagnostic must contain
+	either  bool   // C12 cases: any verdict, but never a panic, a silent failure or output that does not compile
+	raw     map[string]string // files written instead of user.go (C12 cases)
 }
 
 const bindLox = `@lexer
@@ -126,7 +128,7 @@ func mkNode(s string) *Node   { return &Node{S: s} }
 func bindCases() []bindCase {
 	var cs []bindCase
 	add := func(name, pkg, imports, decls string, accept bool, diag string) {
-		cs = append(cs, bindCase{name, pkg, imports, decls, accept, diag})
+		cs = append(cs, bindCase{name: name, pkg: pkg, imports: imports, decls: decls, accept: accept, diag: diag})
 	}
 	// ---- accepted layouts ---------------------------------------------------------------
 	add("exact-pointer-types", "fx", "", nodeDecl+exactMethods("*Node", "mkNode"), true, "")
@@ -249,6 +251,7 @@ func (p *fxParser) on_list(xs []*Node) *Node { p.rec("on_list", xs); return mkNo
 func (p *fxParser) on_s(l *Node) *Node { p.rec("on_s", l); p.root = l; return l }
 func (p *fxParser) helper_not_an_action(x int) int { return x }
 `, true, "")
+	add("variadic-parameter-for-a-list-term", "fx", "", nodeDecl+strings.Replace(exactMethods("*Node", "mkNode"), "on_list(xs []*Node)", "on_list(xs ...*Node)", 1), true, "")
 	// ---- rejected layouts ---------------------------------------------------------------
 	rej := func(name, methods, diag string) { add(name, "fx", "", nodeDecl+methods, false, diag) }
 	base := map[string]string{
@@ -295,6 +298,31 @@ func (p *fxParser) on_s(l *Node) *Node { p.root = l; return l }
 	rej("method-returning-nothing", with(map[string]string{"et": `func (p *fxParser) on_e__t(t *Node) { }`}), "on_e__t")
 	rej("list-parameter-of-element-type", with(map[string]string{"list": `func (p *fxParser) on_list(xs *Node) *Node { return xs }`}), "")
 	rej("token-parameter-for-a-rule-term", with(map[string]string{"et": `func (p *fxParser) on_e__t(t Token) *Node { return nil }`}), "")
+	// ---- Go packages that are missing, empty, ill-typed or lack Token / the parser struct (C12) ----
+	good := bindCase{pkg: "fx", decls: nodeDecl + exactMethods("*Node", "mkNode")}.userCode()
+	any := func(name string, files map[string]string) {
+		cs = append(cs, bindCase{name: "go-package/" + name, pkg: "fx", either: true, raw: files})
+	}
+	any("no-go-files", map[string]string{})
+	any("syntax-error", map[string]string{"user.go": good + "\nfunc broken( {\n"})
+	any("type-error", map[string]string{"user.go": good + "\nvar x int = \"s\"\n"})
+	any("no-token-type", map[string]string{"user.go": strings.Replace(strings.Replace(good, "type Token struct", "type Tok struct", 1), "func (t Token) String", "func (t Tok) String", 1)})
+	any("token-is-a-variable", map[string]string{"user.go": "package fx\n\nvar Token int\n\ntype P struct{ lox }\n"})
+	any("token-is-a-function", map[string]string{"user.go": "package fx\n\nfunc Token() {}\n\ntype P struct{ lox }\n"})
+	any("no-parser-struct", map[string]string{"user.go": "package fx\n\ntype Token struct{}\n"})
+	any("two-parser-structs", map[string]string{"user.go": good + "\ntype other struct{ lox }\n"})
+	any("generic-parser-struct", map[string]string{"user.go": "package fx\n\ntype Token struct{}\n\ntype P[T any] struct {\n\tlox\n\tx T\n}\n"})
+	any("parser-embeds-pointer", map[string]string{"user.go": "package fx\n\ntype Token struct{}\n\ntype P struct{ *lox }\n"})
+	any("parser-struct-alias", map[string]string{"user.go": good + "\ntype alias = fxParser\n"})
+	any("user-defines-Error", map[string]string{"user.go": good + "\ntype Error struct{}\n"})
+	any("user-defines-lox", map[string]string{"user.go": good + "\ntype lox struct{}\n"})
+	any("only-a-test-file", map[string]string{"user_test.go": "package fx\n\ntype Token struct{}\n\ntype P struct{ lox }\n"})
+	any("external-test-package-beside", map[string]string{"user.go": good, "zz_user_test.go": "package fx_test\n"})
+	any("second-file-sorting-first", map[string]string{"user.go": good, "aaa.go": "package fx\n\nvar helper = 1\n"})
+	any("files-of-two-packages", map[string]string{"user.go": good, "zzz.go": "package other\n"})
+	any("empty-go-file", map[string]string{"user.go": ""})
+	any("action-on-embedded-type", map[string]string{"user.go": good + "\ntype base struct{}\n\nfunc (base) on_extra(t Token) *Node { return nil }\n"})
+	any("build-tagged-out", map[string]string{"user.go": "//go:build neverset\n\n" + good})
 	return cs
 }
 
@@ -326,10 +354,39 @@ func TestActionBinding(t *testing.T) {
 	parallel(len(cases), func(i int) {
 		c := cases[i]
 		rep.count(true)
-		g := generate("bind", map[string]string{"parser.lox": bindLox, "user.go": c.userCode()}, false)
+		files := map[string]string{"parser.lox": bindLox}
+		if c.raw != nil {
+			for n, t := range c.raw {
+				files[n] = t
+			}
+		} else {
+			files["user.go"] = c.userCode()
+		}
+		g := generate("bind", files, false)
 		defer cleanup(g.dir)
 		if g.panicked != "" {
-			rep.fail("C12/no-panic", c.name, g.panicked)
+			rep.fail("C12/no-panic/"+panicClass(g.panicked), c.name, g.panicked)
+			return
+		}
+		if c.either {
+			if !g.ok {
+				if strings.TrimSpace(g.diag) == "" {
+					rep.fail("C12/failure-has-a-diagnostic", c.name, "Generate failed without any diagnostic")
+				}
+				return
+			}
+			for _, f := range []string{"base.gen.go", "lexer.gen.go", "parser.gen.go"} {
+				if _, err := os.Stat(filepath.Join(g.dir, f)); err != nil {
+					rep.fail("C12/success-writes-all-generated-files", c.name, "Generate succeeded but "+f+" is missing")
+					return
+				}
+			}
+			cmd := exec.Command("go", "build", "./...")
+			cmd.Dir = g.dir
+			cmd.Env = goEnv()
+			if o, err := cmd.CombinedOutput(); err != nil {
+				rep.fail("C06/generated-files-compile", c.name, tailStr(string(o), 500))
+			}
 			return
 		}
 		if !c.accept {
